@@ -245,6 +245,20 @@ class Baselines:
         self.wall_cap = float(plan.get("knobs", {}).get("baseline_wall_cap_s", 12))
         self.skipped_for_time = 0
 
+    def remap(self, vpath, backing):
+        """The file behind VPATH was replaced: baselines asked for from now on
+        run with the new mapping (and are cached apart)."""
+        self.plan = dict(self.plan)
+        files = [f for f in P.clone(self.plan.get("files", [])) if f["vpath"] != vpath]
+        files.append({"vpath": vpath, "backing": backing, "errno": 0})
+        self.plan["files"] = files
+        kn = self.plan.get("knobs", {})
+        envkey = (repr(sorted((f["vpath"], f.get("backing", ""), f.get("errno", 0), repr(f.get("patches")))
+                              for f in files)),
+                  kn.get("deny_mmap", 0), self.cap, self.z.exe)
+        sh = Baselines.SHARED.setdefault(envkey, ({}, {}, {}))
+        self.exec_cache, self.parse_cache, self.open_cache = sh
+
     def over_budget(self):
         """Baselines of one run may not take for ever (a damaged file can make
         every one of them run into its watchdog); what is not computed is not
@@ -395,7 +409,21 @@ def verify_history(plan, resp, baselines, check_seq=True):
         if fired:
             st.iofired += 1
 
-        if ev.op == "VOC":
+        if ev.op == "REMAP":
+            vp = P.hexdec(a[0]).decode("latin-1")
+            baselines.remap(vp, P.hexdec(a[1]).decode("latin-1"))
+            # what was opened before holds the old contents: not comparable
+            # with a fresh open any more
+            for c_ in V.values():
+                if c_.path == vp:
+                    c_.tainted = True
+            for r_ in R.values():
+                for c_ in r_.get("roots", []):
+                    if c_.path == vp:
+                        c_.tainted = True
+                r_["remapped"] = True
+            st.probe("file_replaced_in_mid_history")
+        elif ev.op == "VOC":
             # parts whose zw_vocabulary_add failed (the same part twice) are not in
             badpart = int(ev.get("addfail", "0"))
             VOCS[int(a[0])] = tuple(p_ for k_, p_ in enumerate(a[1:], 1) if k_ != badpart)
@@ -532,7 +560,7 @@ def verify_history(plan, resp, baselines, check_seq=True):
                 for t in (ev.get("census", "-") or "-").split(";"):
                     if t and t != "-":
                         st.census_fail[t] = st.census_fail.get(t, 0) + 1
-            tainted = any(c.tainted for c in res["roots"])
+            tainted = any(c.tainted for c in res["roots"]) or res.get("remapped")
             if tainted:
                 st.tainted_events += 1
             elif check_seq:
